@@ -3,6 +3,7 @@ import RtcModel.C07Ice
 import RtcModel.C07Dtls
 import RtcModel.C07Sctp
 import RtcModel.C07Media
+import RtcModel.C07Sdp
 import RtcModel.Drv.Util
 /-! Driver for C07: one decoder model per stream; output `ok <digest>` / `err <error>` / `panic`. -/
 namespace RtcModel.Drv.C07
@@ -115,6 +116,18 @@ def handleSpecial (stream : String) (args : List String) : String :=
     match pks.mapM parsePk with
     | some ps => showRes (Media.h264Run {} ps (Buf.ofList []) 0) (fun r => " ".intercalate (r.map showSamples))
     | none => "bad-args"
+  | "cand", [hx] =>
+    match unhex hx with
+    | some bs => showRes (Sdp.candFromSdp bs (Buf.ofList []) 0) nats
+    | none => "bad-hex"
+  | "sdpmid", [m] =>
+    -- the live entry returns (`ret`) whatever the mid text is; a numeric 16-bit mid goes through `midUpdate`
+    match Sdp.parseDec 65535 m.toUTF8.toList with
+    | some v => showRes (Sdp.midUpdate 0 v (Buf.ofList []) 0) (fun _ => "") |>.replace "ok " "ret"
+    | none => "ret"
+  | "sdpmid", [] => "ret"
+  | "sdpparse", _ => "noncompared"
+  | "sdpset", _ => "noncompared"
   | "rtx", [hx] =>
     match unhex hx with
     | some bs => showRes (runS Ice.unwrapRtx bs) (fun r => match r with | none => "none" | some (o, l) => s!"{o} {l}")
